@@ -532,6 +532,9 @@ Definition good (st st' : state) : Prop := sinvb st' = true /\ sig_ext st st'.
 Lemma good_refl st : sinvb st = true -> good st st.
 Proof. intros H; split; auto. apply sig_ext_same_store; auto. Qed.
 
+Lemma good_same_store st st' : st_store st' = st_store st -> sinvb st = true -> good st st'.
+Proof. intros E H; split; [apply sinvb_store_same with (st := st); auto | apply sig_ext_same_store; auto]. Qed.
+
 Lemma good_set_reg st r : sinvb st = true -> good st (set_reg st r).
 Proof. intros H; split; [apply sinvb_store_same with (st := st); auto | apply sig_ext_same_store; auto]. Qed.
 
@@ -566,7 +569,7 @@ Proof. rewrite forallb_forall. intros H k v I. apply (H _ I). Qed.
 Lemma step_op_good st o : reg_okb (st_reg st) = true -> sinvb st = true -> clean st o = true ->
   good st (snd (step_op st o)).
 Proof.
-  intros R I C. destruct o as [s l|id s args|r id k v|id f g v|id k|id v|ko id s args]; simpl.
+  intros R I C. destruct o as [s l|id s args|r id k v|id f g v|id k|id v|ko id s args|pid id|pid v]; simpl.
   - (* Declare *)
     unfold declare. destruct (eval_fields _ l); simpl; apply good_set_reg; auto.
   - (* Construct *)
@@ -636,11 +639,26 @@ Proof.
           + destruct H as [H|H]; auto. destruct (IH0 _ H); auto. }
       intros H. destruct (SI _ _ _ H); auto. }
     rewrite forallb_forall in CV. apply (CV (f0, v0)). apply S; auto.
+  - (* TakePtr *)
+    unfold take_ptr. destruct (negb (value_ok st (VPtr id))); [apply good_refl; auto|].
+    destruct (alookup id (st_store st)) as [i|]; [|apply good_refl; auto].
+    destruct (alookup (i_tname i) (st_reg st)) as [e|]; [|apply good_refl; auto].
+    simpl. apply good_same_store; auto.
+  - (* DerefSetP *)
+    destruct (alookup pid (st_ptrs st)) as [[id [s g]]|] eqn:P; [|apply good_refl; auto].
+    destruct (alookup id (st_store st)) as [i|] eqn:A; [|apply good_refl; auto].
+    destruct (negb (value_ok st v)); [apply good_refl; auto|].
+    destruct v; try (apply good_refl; auto; fail).
+    destruct (alookup id0 (st_store st)) as [ij|] eqn:AJ; [|apply good_refl; auto].
+    destruct (ptr_matches st s g ij); [|apply good_refl; auto]. simpl.
+    simpl in C. rewrite P, A, AJ in C. apply andb_prop in C as [E C].
+    apply gen_eqb_eq in C. apply Nat.eqb_eq in E.
+    eapply good_put_shape; eauto. eapply sinvb_lookup; eauto.
 Qed.
 
 Lemma step_op_reg st o : reg_okb (st_reg st) = true -> reg_okb (st_reg (snd (step_op st o))) = true.
 Proof.
-  intros R. destruct o as [s l|id s args|r id k v|id f g v|id k|id v|ko id s args]; simpl.
+  intros R. destruct o as [s l|id s args|r id k v|id f g v|id k|id v|ko id s args|pid id|pid v]; simpl.
   - unfold declare.
     assert (R1 : reg_okb (aset s {| re_gen := GPh (st_clock st); re_defn := Some [] |} (st_reg st)) = true)
       by (apply forallb_aset; auto).
@@ -665,6 +683,13 @@ Proof.
   - destruct (negb (forallb _ args)); auto.
     destruct (make_hash st s _) as [[vd i] reg] eqn:M.
     pose proof (make_hash_reg _ _ _ _ _ _ R M). destruct vd; simpl; auto.
+  - unfold take_ptr. destruct (negb (value_ok st (VPtr id))); auto.
+    destruct (alookup id (st_store st)) as [i|]; auto.
+    destruct (alookup (i_tname i) (st_reg st)); auto.
+  - destruct (alookup pid (st_ptrs st)) as [[id [s g]]|]; auto.
+    destruct (alookup id (st_store st)) as [i|]; auto.
+    destruct (negb (value_ok st v)); auto. destruct v; auto.
+    destruct (alookup id0 (st_store st)) as [ij|]; auto. destruct (ptr_matches st s g ij); auto.
 Qed.
 
 Theorem step_preserves_inv st o :
@@ -713,7 +738,7 @@ Theorem rejected_write_unchanged st o :
   clean st o = true -> fst (step st o) <> OK -> st_store (snd (step st o)) = st_store st.
 Proof.
   intros C. unfold step. destruct (step_op st o) as [oc st'] eqn:E. simpl. intros N.
-  destruct o as [s l|id s args|r id k v|id f g v|id k|id v|ko id s args]; simpl in E.
+  destruct o as [s l|id s args|r id k v|id f g v|id k|id v|ko id s args|pid id|pid v]; simpl in E.
   - unfold declare in E. destruct (eval_fields _ l); inversion E; subst; auto.
   - destruct (alookup s (st_reg st)) as [e|]; [|inversion E; subst; auto].
     destruct (negb (bound_entry e)); [inversion E; subst; auto|].
@@ -752,6 +777,15 @@ Proof.
   - destruct (negb (forallb _ args)); [inversion E; subst; auto|].
     destruct (make_hash st s _) as [[vd i] reg].
     destruct vd; inversion E; subst; auto; congruence.
+  - unfold take_ptr in E. destruct (negb (value_ok st (VPtr id))); [inversion E; subst; auto|].
+    destruct (alookup id (st_store st)) as [i|]; [|inversion E; subst; auto].
+    destruct (alookup (i_tname i) (st_reg st)); inversion E; subst; auto.
+  - destruct (alookup pid (st_ptrs st)) as [[id [s g]]|]; [|inversion E; subst; auto].
+    destruct (alookup id (st_store st)) as [i|]; [|inversion E; subst; auto].
+    destruct (negb (value_ok st v)); [inversion E; subst; auto|].
+    destruct v; try (inversion E; subst; auto; fail).
+    destruct (alookup id0 (st_store st)) as [ij|]; [|inversion E; subst; auto].
+    destruct (ptr_matches st s g ij); inversion E; subst; auto. congruence.
 Qed.
 
 (* ---------- an accepted write sets exactly that field of exactly that instance ---------- *)
